@@ -524,6 +524,27 @@ pub fn gen_ws(ch: &mut Chooser, cx: &mut CaseCtx, o: &WsGenOpts) -> WsCase {
                     ops.push(FileOp { kind: "rename".into(), old_path: path.clone(), new_path: newp, target: path, hunks: fp.hunks.clone(), failing_hunks: vec![], fail_reason: Some("rename-onto-directory".into()) });
                     specs.push(fp);
                 }
+                4 if !failing_here && ch.chance(1, 8) => {
+                    // a rename entry whose source never existed while the file with the new name is there: the tool
+                    // says "already has the name" and patches the file in place (its backup is the file as it was)
+                    let path = nonempty[ch.below(nonempty.len())].clone();
+                    let Some(a) = new_path(ch, &next, &ever, false) else { continue };
+                    ever.push(a.clone());
+                    let f = next.files[&path].clone();
+                    let lines = split_lines(&f.data);
+                    let (nl, eops) = if ch.chance(2, 3) { gen_edit(ch, &lines, alpha, true) } else { (lines.clone(), vec![Op::Keep; lines.len()]) };
+                    let chg = FileChange { old_path: a.clone(), new_path: path.clone(), old: Some(lines.clone()), new: Some(nl.clone()), old_mode: Some(f.mode), new_mode: Some(f.mode), rename: true };
+                    let fp = build_file_patch(ch, &d, &chg, &eops, c.max(1), merge);
+                    if is_k2_shape(&fp.hunks) {
+                        continue;
+                    }
+                    next.files.get_mut(&path).unwrap().data = B(join_lines(&nl));
+                    feat.push("rename-entry-for-a-file-that-already-has-the-name".into());
+                    touched.push(a.clone());
+                    touched.push(path.clone());
+                    ops.push(FileOp { kind: "modify".into(), old_path: a, new_path: path.clone(), target: path, hunks: fp.hunks.clone(), failing_hunks: vec![], fail_reason: None });
+                    specs.push(fp);
+                }
                 4 => {
                     // rename (git only, forward only), optionally with an edit
                     let path = nonempty[ch.below(nonempty.len())].clone();
